@@ -187,3 +187,26 @@ CLAIMED["C03"] = {
     "design_ref": "DESIGN.md §4 C03, §2 E3",
     "note": TB + " Assumes Buffer::len is stable for a given buffer (true for the two impls in buffer.rs) and that all sizes are <= isize::MAX.",
 }
+
+CLAIMED["C08"] = {
+    "engine": "E4 decision table + bit-provenance domain",
+    "technique": "decision-table extraction of ArgsIter::next by abstract interpretation over token shapes; bit-provenance abstract interpretation of char_pop_front",
+    "text": ("Decides the complete classification table of ArgsIter::next (every iterator state x every token shape of the partition induced "
+             "by the constants: length 0/1/2/>=3, first/second byte is '-') against the table written from the statement: which Arg, which "
+             "sub-slice it carries, how values_only/leftover change, whether a token is consumed; and bit-exactly that char_pop_front takes one "
+             "scalar of each encoded length off the front and returns exactly the text after it. Re-joining follows from the table."),
+    "design_ref": "DESIGN.md §4 C08, App. B.4",
+    "note": TB + " specs/arguments.py is the reference table.",
+}
+CLAIMED["C17"] = {
+    "engine": "E4 transducers + bit-provenance domain + loop step relations",
+    "technique": "finite-state extraction and equivalence (decoder identity on every scalar), bit-provenance abstract interpretation (encode_utf8 / char_pop_front bit-exact for each encoded length), loop step relation extraction for the counting helpers",
+    "text": ("Decides: (A) from every reachable decoder state every well-formed sequence of every row of Table 3-7 - i.e. every scalar value - is "
+             "emitted as itself; (B) with the scalar's payload bits symbolic, encode_utf8 writes exactly the UTF-8 definition's bytes and "
+             "char_pop_front reassembles exactly those bits and leaves exactly the following text, for each of the four lengths (hence the "
+             "round trip for all 1,112,064 scalars without enumerating them); (C) bytes >= 0x80 are ordinary in every tokenizer state; (D) the "
+             "counting helpers feed each byte once, in order, to a fresh accumulator and step their counter iff it reports a scalar. "
+             "The composition of (A) and (D) into `count = number of scalars` is an argument in DESIGN.md, its premises are what is checked."),
+    "design_ref": "DESIGN.md §4 C17",
+    "note": TB + " The UTF-8 bit layout (FORMS in rules/C17.py) and specs/utf8.py are the references.",
+}
